@@ -417,6 +417,30 @@ class Replayer:
                         bad("ColExpr.export", f"column {c.name}: {col_rows[:4]} vs {want[:4]}")
             except Exception as e:  # noqa: BLE001
                 bad("ColExpr.export", f"raised {exc_class(e)}: {e}")
+            # the other documented forms: Polars(lazy=True) is ignored (a Series comes back), the class instead of an instance,
+            # and Pandas (a pandas Series of the same name, length and values - also for a single row)
+            try:
+                import pandas as pd
+
+                c = next(iter(tbl))
+                want = [[r[names.index(c.name)]] for r in rows]
+                idx = names.index(c.name)
+                for label, target in (("Polars(lazy=True)", pdt.Polars(lazy=True)), ("Polars (class)", pdt.Polars)):
+                    ser = c.export(target)
+                    if type(ser).__name__ != "Series" or ser.name != c.name or not self.rows_equal(want, [[v] for v in ser.to_list()], obs, bk, single=idx):
+                        bad("ColExpr.export", f"{label}: {type(ser).__name__} {getattr(ser, 'name', None)!r} vs column {c.name!r} {want[:3]}")
+                if bk == "polars":
+                    ps = c.export(pdt.Pandas())
+                    if not isinstance(ps, pd.Series):
+                        bad("ColExpr.export", f"Pandas: returned {type(ps).__name__} {ps!r} instead of a Series")
+                    else:
+                        got = [[None if pd.isna(v) else (v.item() if hasattr(v, "item") else v)] for v in ps.tolist()]
+                        if ps.name != c.name or not self.rows_equal(want, got, obs, bk, single=idx):
+                            bad("ColExpr.export", f"Pandas: series {ps.name!r} {got[:3]} vs column {c.name!r} {want[:3]}")
+            except NotImplementedError:
+                pass
+            except Exception as e:  # noqa: BLE001
+                bad("ColExpr.export", f"other targets raised {exc_class(e)}: {e}")
 
     def check_expr_export(self, node, beh, k, bk, tbl, df, obs):
         """C20: ColExpr.export of an EXPRESSION over the table (get_expr_as_table is a separate path)"""
